@@ -75,6 +75,32 @@ def gen_cases(rng, n):
         o["max_time"] = 40
         c["ops"] = [o]
         c["json_ok"] = True
+        if len(c["tasks"]) >= 2 and rng.random() < 0.2:
+            # dependencies declared on the successor's side only (BaseTask(input_task_list=[[pred, kind]])),
+            # in the direction of a topological order of the existing edges
+            nt = len(c["tasks"])
+            order, indeg = [], [0] * nt
+            for (p, s_, k) in c["edges"]:
+                indeg[s_] += 1
+            todo = [i for i in range(nt) if indeg[i] == 0]
+            while todo:
+                x = todo.pop(0)
+                order.append(x)
+                for (p, s_, k) in c["edges"]:
+                    if p == x:
+                        indeg[s_] -= 1
+                        if indeg[s_] == 0:
+                            todo.append(s_)
+            if len(order) == nt:
+                pos = {t: n for n, t in enumerate(order)}
+                extra = []
+                for _ in range(rng.choice([1, 1, 2])):
+                    a, b_ = rng.sample(range(nt), 2)
+                    if pos[a] > pos[b_]:
+                        a, b_ = b_, a
+                    if not any(p == a and s_ == b_ for (p, s_, k) in c["edges"] + extra):
+                        extra.append([a, b_, rng.choice([0, 1, 2, 2, 3])])
+                c["edges_in"] = extra
         cases.append(c)
     return cases
 
